@@ -5,7 +5,7 @@ import pure_props
 PROP = "C19"
 LEAN_MODULES = ["PamsProps.C19"]
 NAMESPACES = ["Pams.C19"]
-DRIVERS = ["Pure"]
+DRIVERS = ["Pure", "PyRun"]
 TRUSTED = [
     "theorems are over exact rationals; Python evaluates floor(price/tick)*tick in IEEE doubles: equal to the model exactly on the exact family, and up to the float representation of the grid otherwise (measured gap reported in evidence)",
     "Python's float % is exact (fmod), so the on-grid test is compared exactly",
@@ -14,7 +14,9 @@ ASSUMPTIONS = ["finite positive doubles"]
 
 
 def run(ctx, model_available=True):
-    return pure_props.run_C19(ctx, model_available=model_available)
+    import py_checks
+    res = pure_props.run_C19(ctx, model_available=model_available)
+    return py_checks.merge(res, ctx, ["market"], n_each=80, model_available=model_available)
 
 
 def search(ctx, res):
